@@ -19,8 +19,9 @@ CLAIM = ('For every token type the filter yields the token once; only start/empt
          "order, so nothing is lost, merged or altered; the sort key replaces a None namespace by '' before "
          'comparing, so it is total on mixed namespaces and independent of the incoming order. Every ordering '
          "call uses the key function; the key function yields (namespace or '', local name) on representative "
-         'keys.')
-NOT_DECIDED = "nothing else in the statement; distinct keys ('', x) and (None, x) sort equal but both are kept (stable order)."
+         'keys.'
+         " The sort key is total on attribute keys: (None, x) and ('', x) get different keys.")
+NOT_DECIDED = "nothing else in the statement."
 MODULES = ["filters/alphabeticalattributes.py", "filters/base.py"]
 REL = "filters/alphabeticalattributes.py"
 TYPES = ["Doctype", "Characters", "SpaceCharacters", "StartTag", "EndTag", "EmptyTag", "Comment", "Entity", "SerializeError", FRESH]
